@@ -85,6 +85,8 @@ def run(ck, fx, cg, tier):
     # "any file in that layout is loaded as the program it denotes": the loader sees the file's own bytes
     from . import shared
     sites = shared.reader_transparency(fx)
+    for fn_, where_, ok_, why_ in shared.partial_source_readers(fx):
+        ck.ob("R4.source", "%s|reads the input" % fn_, ok_, where_, why_)
     for fn, where, ok, why in sites:
         ck.ob("R4.source", "%s|input reader" % fn, ok, where,
               "the input reader is %s" % why if ok else "the bytes of a file can be altered before the loader sees them: the input reader is %s" % why)
